@@ -1077,6 +1077,7 @@ def run(rep, tier):
     c07.rule_rewrite(_Rename(rep, {'R2': 'R9'}), idx)
     c07.rule_fold(_Rename(rep, {'R1': 'R10'}), idx)
     c07.rule_fold_effects(_Rename(rep, {'R8': 'R13'}), idx)
+    c07.rule_rewrite_evaluations(_Rename(rep, {'R10': 'R17'}), idx)
 
 
 class _Rename:
